@@ -52,6 +52,8 @@ pub struct JitWorld {
   pub desired: Vec<(u16, u8)>,
   code_dirty: bool,
   pub base_io: fn(&mut Core),
+  /// banked worlds: the ROM bank to re-select after a block wrote to the controller
+  pub base_bank: Option<u8>,
 }
 
 fn quiescent_io(_c: &mut Core) {}
@@ -79,6 +81,42 @@ impl JitWorld {
       desired: Vec::new(),
       code_dirty: true,
       base_io: quiescent_io,
+      base_bank: None,
+    }
+  }
+
+  /// A world on a real MBC1 cartridge loaded from a ROM file, with ROM bank `bank` mapped at
+  /// 0x4000 (so that bytes fetched across 0x3FFF/0x4000 must come from the *mapped* bank).
+  pub fn new_banked(image_path: &str, bank: u8) -> JitWorld {
+    let mut core = crate::world::load_like_main(image_path).expect("banked image loads");
+    for (i, b) in core.memory.work_ram.iter_mut().enumerate() {
+      *b = (i as u8).wrapping_mul(3) ^ 0x5A ^ ((i >> 8) as u8);
+    }
+    for (i, b) in core.memory.high_ram.iter_mut().enumerate() {
+      *b = (i as u8).wrapping_mul(17) ^ 0x69;
+    }
+    let mp = &mut core.memory as *mut MemoryAreas;
+    crate::mem::memory_write_byte(mp, 0x2100, bank);
+    let pristine = Pristine {
+      rom: core.memory.rom.to_vec(),
+      vram: core.memory.video_ram.to_vec(),
+      cart_ram: core.memory.cart_ram.to_vec(),
+      wram: core.memory.work_ram.to_vec(),
+      oam: core.memory.oam_ram.to_vec(),
+      hram: core.memory.high_ram.to_vec(),
+    };
+    JitWorld {
+      core,
+      pristine,
+      cache: None,
+      translations: 0,
+      total_translations: 0,
+      budget_bytes: 0,
+      cur: None,
+      desired: Vec::new(),
+      code_dirty: true,
+      base_io: quiescent_io,
+      base_bank: Some(bank),
     }
   }
 
@@ -252,6 +290,17 @@ impl JitWorld {
       return;
     }
     let mut io = false;
+    if let Some(b) = self.base_bank {
+      if obs.writes.iter().any(|(a, _)| *a < 0x8000) {
+        // the block wrote to the controller: back to the base mapping (MBC1 register file)
+        let mp = &mut self.core.memory as *mut MemoryAreas;
+        crate::mem::memory_write_byte(mp, 0x0000, 0x00);
+        crate::mem::memory_write_byte(mp, 0x6000, 0x00);
+        crate::mem::memory_write_byte(mp, 0x4000, 0x00);
+        crate::mem::memory_write_byte(mp, 0x2100, b);
+        self.code_dirty = true;
+      }
+    }
     for (a, _) in obs.writes.iter() {
       if (0xFF00..=0xFF7F).contains(a) {
         io = true;
